@@ -227,6 +227,39 @@ def run(st, tier, seed):
             if base is not None:
                 judge(base, {"files": b.texts, "entry": b.entry, "includes": b.includes}, "unmutated program",
                       redo=lambda: compile_dir(d, b.entry, [], b.includes, "des"))
+    # directed: several helices side by side in run-length notation; EVERY exchange of two counts on the structure line (counts that
+    # cancel in the total length: a helix that closes more than it opened, made up for by a later one) must be rejected or stay balanced
+    for k in range(6 if tier == "quick" else 80):
+        hs = [(rng.randint(1, 5), rng.randint(3, 6)) for _ in range(rng.randint(2, 3))]
+        if len({a_ for a_, _ in hs}) < 2:
+            hs[0] = (hs[0][0] + 1 + hs[1][0], hs[0][1])
+        gap = [rng.randint(0, 2) for _ in hs]
+        total = sum(2 * a_ + l_ + g_ for (a_, l_), g_ in zip(hs, gap))
+        sp_ = lambda: rng.choice([" ", " ", "  ", "\t"])
+        struct = sp_().join(("%d." % g_ + sp_() if g_ else "") + "%d(%s%d.%s%d)" % (a_, sp_(), l_, sp_(), a_) for (a_, l_), g_ in zip(hs, gap))
+        text = ("declare component Top: ->\nsequence a = \"%dN\"\nstrand A = a\nstructure HP = A : %s\n" % (total, struct))
+        b = progen.Bundle(); b.texts["top.comp"] = text; b.entry = "top"
+        with core.scratch("pepper_c09h_") as d:
+            progen.write_bundle(b, d)
+            inp0 = {"files": b.texts, "entry": "top", "includes": []}
+            base = compile_dir(d, "top", [], [])
+            res.evaluations += 1
+            res.count("directed:helices-side-by-side")
+            if base is None:
+                res.violations.append({"what": "a well-formed program (helices side by side, run-length notation) is rejected", "input": inp0,
+                                       "sig": "C09:rejects-valid", "cmd": "pepper-compiler top"})
+                continue
+            judge(base, inp0, "unmutated program", redo=lambda: compile_dir(d, "top", [], [], "des"))
+            for mt, what in all_number_swaps(text):
+                with open(os.path.join(d, "top.comp"), "w") as f:
+                    f.write(mt)
+                out = compile_dir(d, "top", [], [])
+                des_out = compile_dir(d, "top", [], [], "des") if out is not None else None
+                res.evaluations += 1
+                res.count("mutation:swap-numbers(helices)")
+                res.count("mutant:" + ("accepted" if out is not None else "rejected"))
+                if out is not None:
+                    judge(out, dict(inp0, files={"top.comp": mt}, mutation=what, mutated_file="top.comp"), what, redo=lambda: des_out)
     # directed: number of instance arguments vs number of template parameters.  The entry file of a generated program gets two
     # (unused) parameters; it is compiled at top level with 2 / 1 / 3 arguments and, wrapped into a system, as an instance with
     # (1, 2) / (1) / (1, 2, 3) / ().  Wherever the numbers differ the compiler must not produce output.
